@@ -2079,9 +2079,11 @@ func (e *Extractor) extractPreserveLayout(fragments []text.TextFragment, pageWid
 
 	// Configuration for layout preservation
 	const (
-		defaultCharsPerLine = 80  // Default width in characters
-		minCharsPerLine     = 40  // Minimum width
-		maxCharsPerLine     = 200 // Maximum width
+		defaultCharsPerLine = 80                  // Default width in characters
+		minCharsPerLine     = 40                  // Minimum width
+		maxCharsPerLine     = 200                 // Maximum width
+		maxColumns          = 4 * maxCharsPerLine // Right-most column text is padded out to
+		maxBlankLines       = 200                 // Largest vertical gap rendered as blank lines
 	)
 
 	// Calculate character width based on page width and desired output width
@@ -2195,6 +2197,11 @@ func (e *Extractor) extractPreserveLayout(fragments []text.TextFragment, pageWid
 			if gapInLines < 1 {
 				gapInLines = 1
 			}
+			// Coordinates come from the file: a gap far beyond any page must not
+			// turn into that many blank lines
+			if gapInLines > maxBlankLines || verticalGap/lineHeight > maxBlankLines {
+				gapInLines = maxBlankLines
+			}
 
 			// Add newlines (1 for normal line break, more for vertical gaps)
 			for i := 0; i < gapInLines; i++ {
@@ -2213,6 +2220,10 @@ func (e *Extractor) extractPreserveLayout(fragments []text.TextFragment, pageWid
 			targetCol := int(frag.X / charWidth)
 			if targetCol < 0 {
 				targetCol = 0
+			}
+			// (likewise, a position far right of the page is not padded out to)
+			if targetCol > maxColumns || frag.X/charWidth > maxColumns {
+				targetCol = maxColumns
 			}
 
 			// Add spaces to reach target column
